@@ -219,6 +219,44 @@ LEGACY_VERSION_PATTERNS_WITH_PEP440 = ("{pycalver}", "{semver}", "v{year}{month}
                                        "v{year}{build}{release}", "{year}{build}{release}")
 
 
+def v1_render_eval(ctx, rule: str, parts: T.List[str]) -> None:
+    """v1version.format_version evaluated on the pattern `{part}` for every part the legacy recogniser knows, with a fully
+    populated version record: it returns a text (no placeholder is left without a value)."""
+    from sa.model import Abstract, CannotFold, EvalError
+    prog = ctx.prog
+    fv = prog.function("v1version.format_version")
+    names = prog.klass("version.V1VersionInfo").fields
+
+    class Rec(Abstract):
+        def __init__(self, d: T.Dict[str, T.Any]):
+            self.__dict__.update(d)
+            self.__dict__["_d"] = dict(d)
+
+        def _asdict(self) -> T.Dict[str, T.Any]:
+            return dict(self._d)
+    base = {n_: None for n_ in names}
+    base.update({"year": 2021, "quarter": 1, "month": 3, "dom": 14, "doy": 73, "iso_week": 10, "us_week": 11, "major": 1, "minor": 22, "patch": 3, "bid": "1001", "tag": "beta"})
+    wrong: T.List[str] = []
+    n = 0
+    try:
+        for part in parts:
+            try:
+                got, _ys = prog.run_body(fv, {fv.params[0]: Rec(base), fv.params[1]: "{" + part + "}", "__strict__": True})
+            except EvalError as ex:
+                got = None
+                if len(wrong) < 4:
+                    wrong.append(f"{{{part}}}: {ex}")
+            n += 1
+            if got is not None and not isinstance(got, str) and len(wrong) < 4:
+                wrong.append(f"{{{part}}}: returns {got!r}")
+    except (CannotFold, TypeError, AttributeError, KeyError, ValueError, IndexError) as ex:
+        ctx.observe(f"{fv.fq} not evaluated ({type(ex).__name__}: {str(ex)[:80]})")
+        return
+    ctx.check(rule, not wrong, f"v1 renderer: format_version gives a text for each of the {n} recognised legacy parts",
+              "v1version.format_version: a recognised legacy part cannot be rendered", "; ".join(wrong[:3]) + ": every bump of a pattern with that part ends in a traceback",
+              loc=fv.loc(), witness={"pattern": "v{year}." + (wrong[0].split(":")[0] if wrong else "")})
+
+
 def v1_reader_eval(ctx, rule: str) -> None:
     """v1version._parse_field_values evaluated (dates from the standard library) on captured group dicts: every field of the
     result is the captured value (numbers as int, two-digit years expanded, the short tag as its long form), month / day of the
@@ -349,6 +387,18 @@ def run(ctx) -> None:
     rp = prog.function("v1patterns._replace_pattern_parts")
     ok = "(?P<{part_name}>{part_pattern})" in unparse(rp.node)
     ctx.require(ok, "v1patterns._replace_pattern_parts: named group shape changed (model not applicable)")
+    # ... for every entry of the table (evaluated with a three-entry table: first, middle and last placeholder are all expanded)
+    from sa.model import CannotFold as _CF, EvalError as _EE
+    try:
+        tab3 = {"first": "A+", "mid": "B+", "last": "C+"}
+        got3, _ys3 = prog.run_body(rp, {rp.params[0]: "\\{first\\}-\\{mid\\}-\\{last\\}-\\{other\\}", "PART_PATTERNS": dict(tab3), "__strict__": True})
+        want3 = "(?P<first>A+)-(?P<mid>B+)-(?P<last>C+)-\\{other\\}"
+        ctx.check("R1", got3 == want3, "_replace_pattern_parts expands the placeholder of every table entry (first, middle and last of a three-entry table)",
+                  "v1patterns._replace_pattern_parts: a placeholder of the part table is not expanded to its named group",
+                  f"{got3!r}, expected {want3!r}: the part added to the table last (the composite search patterns) stays literal text and never matches", loc=rp.loc(),
+                  witness={"file pattern": "{pep440_version}"})
+    except (_CF, _EE, TypeError, KeyError, AttributeError) as ex3:
+        ctx.observe(f"_replace_pattern_parts not evaluated ({type(ex3).__name__}: {str(ex3)[:60]})")
 
     fv = prog.function("v1version.format_version")
     ctx.visit(fv.fq)
@@ -360,6 +410,7 @@ def run(ctx) -> None:
 
     all_parts = sorted(set(pats) | set(comps))
     ctx.floor("R1", "legacy parts", len(all_parts), 40)
+    v1_render_eval(ctx, "R1", all_parts)
     n_scope = 0
     for part in all_parts:
         tmpl = full.get(part, "{" + part + "}")
